@@ -198,5 +198,14 @@ fn main() {
     if run.has_violation() {
         std::process::exit(1);
     }
+    let skipped = run.harness_skipped.load(std::sync::atomic::Ordering::Relaxed);
+    if skipped > 0 {
+        println!("NOTE property={id}: {skipped} case(s) could not be run by the harness itself and were skipped ({})", run.harness_note.lock().unwrap().clone().unwrap_or_default());
+        if skipped > 200 {
+            // too many to call the run a decision: inconclusive, not a violation
+            eprintln!("INCONCLUSIVE: the harness could not run {skipped} cases");
+            std::process::exit(2);
+        }
+    }
     println!("OK property={id} tier={} seed={seed} profile={}", tier.name(), common::profile_name());
 }
